@@ -953,6 +953,24 @@ func (p CPath) failedErrors(inModule func(*ssa.Function) bool, modPath string) [
 				_ = x
 			}
 		}
+		if failed && !handedOn {
+			// … or handed on further along the path, after travelling up through the results of
+			// spliced helpers (`rsp, err := s.sendOnce(…)` … `terminalErr = err`)
+			for j := i + 1; j < len(occs) && !handedOn; j++ {
+				switch x := occs[j].In.(type) {
+				case *ssa.Store:
+					if isErrorType(x.Val.Type()) && p.Upto(occs[j].Seg).resolvesThrough(occs[j].Ctx, x.Val, errv) {
+						handedOn = true
+					}
+				case *ssa.Call:
+					for _, a := range x.Call.Args {
+						if isErrorType(a.Type()) && p.Upto(occs[j].Seg).resolvesThrough(occs[j].Ctx, a, errv) {
+							handedOn = true
+						}
+					}
+				}
+			}
+		}
 		all = append(all, errCall{call, failed && !handedOn})
 	}
 	// a failure followed by another exchange on the path is a fallback or a retry: what the
